@@ -1,6 +1,7 @@
 import OH.Proofs.SynNum
 import OH.Proofs.SynRule9
 import OH.Model.PrintableOut
+import OH.Proofs.EvalComments2
 /-
 C06 — printed expressions parse back to an equivalent expression.
 Property theorems only.  The printers are OH/Model/Print.lean (one definition per `Display`), the
@@ -71,6 +72,30 @@ theorem C06_roundtrip_idempotent (e : Expr) (h : OH.Model.Printable.printableOut
 theorem C06_print_never_panics (e : Expr) (h : OH.Model.Printable.printableOut e = true) :
     Print.printPanics e = false :=
   printable_no_panic e h
+
+/-- **C06 (semantic half)**: the expression read back from the printed form EVALUATES IDENTICALLY: in
+every context, on every day (inside or outside 1900..9999), every minute has the same state (open /
+closed / unknown), and evaluation fails exactly when the original fails, with the same message.  The
+comments are those of the original with the comments of each rule joined (`reparsed e`), see
+`C06_parse_print_roundtrip`. -/
+theorem C06_reparsed_evaluates_identically (e : Expr) (h : OH.Model.Printable.printableOut e = true)
+    (e' : Expr) (hp : Parser.parseChars (Print.expr e) = .ok e') (ctx : Ctx) (d : Int) :
+    match scheduleAt ctx e d, scheduleAt ctx e' d with
+    | .ok s, .ok s' => ∀ m, OH.Spec.Schedule.dayState s m = OH.Spec.Schedule.dayState s' m
+    | .error p, .error p' => p = p'
+    | _, _ => False := by
+  have hrt : Parser.parseChars (Print.expr e) = .ok (joinComments e) := by
+    rw [parse_print_roundtrip e h, reparsed_eq_joinComments e h]
+  exact OH.Proofs.EvalComments.parsed_evaluates_identically e e' hrt hp ctx d
+
+/-- changing the comments of rules in ANY way never changes a state: the states of a day do not
+depend on comments (used above with "join the comments of each rule") -/
+theorem C06_states_do_not_depend_on_comments (f : List String → List String) (ctx : Ctx) (e : Expr) (d : Int) :
+    match scheduleAt ctx e d, scheduleAt ctx (OH.Proofs.EvalComments.mapComments f e) d with
+    | .ok s, .ok s' => ∀ m, OH.Spec.Schedule.dayState s m = OH.Spec.Schedule.dayState s' m
+    | .error p, .error p' => p = p'
+    | _, _ => False :=
+  OH.Proofs.EvalComments.scheduleAt_kinds_mapComments f ctx e d
 
 /-- non-vacuity: a rule with years, a dated range with offsets, a week, weekdays with positions and
 an offset, a holiday, two time spans (an event with an offset, an open end) and two comments is in the
